@@ -503,7 +503,7 @@ def jobs(tier, seed):
             add('VertexCover/%s/%s' % (g, mode), 'make_vertexcover', dict(graph=g, mode=mode))
     for (m, N) in ([(1, 3)] + ([(2, 2), (2, 3)] if T else [(2, 1)])):
         add('BILP/m%d/N%d/strict' % (m, N), 'make_bilp', dict(m=m, N=N, mode='strict', R=2 if (T and (m, N) != (2, 3)) else 1))
-    for (nj, nw) in ([(2, 2), (1, 2)] + ([(3, 2), (2, 3), (1, 3)] if T else [])):
+    for (nj, nw) in ([(2, 2), (1, 2), (2, 3)] + ([(3, 2), (1, 3)] if T else [])):     # three workers: the per-worker terms are no longer all the same
         for log in (True, False):
             for mode in ('strict', 'default'):
                 add('JobSequencing/j%d/w%d/log=%d/%s' % (nj, nw, log, mode), 'make_jobseq', dict(njobs=nj, nworkers=nw, log=log, mode=mode, Lmax=2 if nj == 2 else 2))
